@@ -118,7 +118,7 @@ def _variable_and_logd(obj, args, kwargs):
     return None, None, "call form not modelled"
 
 
-def judge_call(obj, args, kwargs, result, expect_outside=False, twin_logd=None):
+def judge_call(obj, args, kwargs, result, expect_outside=False, twin_logd=None, cond_allow=0.0):
     """Judge one observed gradient call. Returns an event dict with `status` in
     ok | mismatch | size | none | not_array | outside_ok | outside_finite | unjudged."""
     ev = {"cls": type(obj).__name__, "mode": "analytic", "status": "unjudged", "why": "", "detail": "", "ncomp": 0}
@@ -180,11 +180,15 @@ def judge_call(obj, args, kwargs, result, expect_outside=False, twin_logd=None):
         # an exactly-zero gradient (flat density): confirmed when the numerical derivative is zero within its own resolution
         ev.update(status="ok", ncomp=int(x.size), headroom_ok=True, zero=True)
         return ev
-    usable = np.isfinite(R) & (err <= POOR_REF * scale)
+    # cond_allow (> 0 only in the 'large and ill-conditioned' workload, where the harness knows the condition number of
+    # the matrix it handed in): floating point cannot make P@dev and the derivative of |sqrt(P)@dev|^2 agree better than
+    # ~eps*cond(P) relative to the whole gradient, so that much - and never more than 5 % - is granted on top
+    gnorm = float(np.linalg.norm(g[np.isfinite(g)])) if cond_allow > 0 else 0.0
+    usable = np.isfinite(R) & (err <= max(POOR_REF, cond_allow) * scale)
     if not np.any(usable):
         ev["why"] = "reference derivative not accurate enough"
         return ev
-    tol = ERR_FACTOR * err + RTOL_COMP * np.abs(R) + RTOL_VEC * scale
+    tol = ERR_FACTOR * err + RTOL_COMP * np.abs(R) + RTOL_VEC * scale + cond_allow * gnorm
     if ev["mode"] == "fd":
         eps = float(getattr(obj, "FD_epsilon", 1e-8) or 1e-8)
         # (a) the forward-difference quotient of the same object's logd with the configured epsilon, recomputed here
@@ -254,6 +258,7 @@ class GradMonitor:
         self.expect_outside = False
         self.top_id = None
         self.judge_errors = []
+        self.cond_allow = 0.0         # see judge_call; set only by the ill-conditioned workload
         self.fallback = {}            # id(object) -> logd of an identical twin, used only when the object's own logd raises
         self._stack = None
         self.enabled = True
@@ -279,7 +284,8 @@ class GradMonitor:
         try:
             # the call site's "this point is outside the support" refers to the object it called, not to the objects
             # that object consults internally (their own logd may be -inf for other reasons, e.g. an underflowing pdf)
-            ev = judge_call(obj, args, kwargs, result, self.expect_outside and id(obj) == self.top_id, self.fallback.get(id(obj)))
+            ev = judge_call(obj, args, kwargs, result, self.expect_outside and id(obj) == self.top_id, self.fallback.get(id(obj)),
+                            self.cond_allow)
         except Exception as e:  # noqa  - a harness problem, never the library's
             import traceback
             self.judge_errors.append("".join(traceback.format_exception(type(e), e, e.__traceback__))[-600:])
@@ -719,6 +725,34 @@ def cases(tier, seed):
                             "data": R.choice(("cov:full", "cov:banded", "prec:full", "prec:banded", "prec:vector", "sqrtcov:banded")),
                             "noise_k": R.choice(SCALE_KS), "model": R.choice(("matrix", "funadj", "jac", "dirjac")), "amp_k": 0,
                             "rep": r, "s": R.randrange(10 ** 9)})
+    # --- large and ill-conditioned Gaussians (prior / noise model / prior inside a posterior)
+    ill = []
+    for param in G_PARAMS:
+        for form in ("full", "sparse_full", "diagmat", "vector"):
+            for cond in COND_KS + ("lowrank",):
+                if form == "sparse_full" and (cond == "lowrank" or cond > 6):
+                    continue            # a sparse Gaussian has no logd of its own (no cholmod); its dense twin truncates beyond 1e-10
+                for role in ("prior", "lik", "post_noise", "post_prior"):
+                    ill.append({"param": param, "form": form, "cond": cond, "role": role})
+    for d in ill:
+        for dm in ("lowered", "below"):
+            for r in range(1 if quick else 3):
+                out.append({"kind": "illcond", **d, "dimmode": dm, "rep": r, "s": R.randrange(10 ** 9)})
+    true_dim = [d for d in ill if d["form"] in ("full", "sparse_full")] + [d for d in ill if d["form"] not in ("full", "sparse_full") and d["cond"] in (8, 14)]
+    must = [d for d in true_dim if d["form"] == "full" and d["cond"] in (10, 12, 14, "lowrank") and d["role"] in ("prior", "lik")]
+    rest = [d for d in true_dim if d not in must]
+    for d in must + (R.sample(rest, 24) if quick else rest):
+        for r in range(1 if quick else 2):
+            out.append({"kind": "illcond", **d, "dimmode": "true", "rep": r, "s": R.randrange(10 ** 9)})
+    # --- degenerate shapes of the model derivative
+    for shape in ("1xm", "nx1", "1x1"):
+        for mk in ("jac", "dirjac"):
+            for ret in SHAPE_RETURNS:
+                for df in ("cov:scalar", "cov:vector", "prec:vector", "cov:full", "sqrtcov:vector", "lognormal:vector"):
+                    for r in range(1 if quick else 5):
+                        out.append({"kind": "shape", "shape": shape, "model": mk, "ret": ret, "data": df,
+                                    "prior": R.choice(("gaussian_cov", "gaussian_prec", "cauchy", "uniform")), "scalar_data": R.random() < 0.5,
+                                    "rep": r, "s": R.randrange(10 ** 9)})
     # --- multiple-likelihood posteriors
     for r in range(60 if quick else 1500):
         nl = R.choice([2, 2, 3])
@@ -747,7 +781,7 @@ def cases(tier, seed):
 
 
 def crash_config(case):
-    return {k: case[k] for k in ("kind", "family", "form", "param", "model", "dgeom", "prior", "data", "pde", "sampler", "name", "scale_k", "role", "noise_k") if k in case}
+    return {k: case[k] for k in ("kind", "family", "form", "param", "model", "dgeom", "prior", "data", "pde", "sampler", "name", "scale_k", "role", "noise_k", "cond", "dimmode") if k in case}
 
 
 def _cfg(case):
@@ -1272,6 +1306,222 @@ def _run_scaled(case, ctx, mon, rs):
     _fd_cycle(pr, target, xs[0], rs, chain=True, n_eps=1)
 
 
+COND_KS = (2, 4, 6, 8, 10, 12, 14)
+
+
+def _illcond_spectrum(case, rs, n):
+    """Eigenvalues of the covariance (descending) and the condition number the harness hands in."""
+    if case["cond"] == "lowrank":
+        r = int(rs.choice([1, 3]))
+        s = np.logspace(0, -6, n)
+        s[-r:] *= 1e-10                                  # numerically low rank: the last r directions are ~1e-16 relative
+    else:
+        s = np.logspace(0, -float(case["cond"]), n)
+    return s, float(s.max() / s.min())
+
+
+def _illcond_value(param, form, Q, s, perm):
+    """The matrix parameter with covariance eigenvalues s (eigenvectors Q for the full forms)."""
+    import scipy.sparse as sp
+    ev = {"cov": s, "prec": 1.0 / s, "sqrtcov": np.sqrt(s), "sqrtprec": 1.0 / np.sqrt(s)}[param]
+    if form == "vector":
+        return ev[perm]
+    if form == "diagmat":
+        return np.diag(ev[perm])
+    M = (Q * ev) @ Q.T
+    M = 0.5 * (M + M.T)
+    return M if form == "full" else sp.csc_matrix(M)
+
+
+def _directional_check(pr, ctx, obj, x, g, dirs, allow, cfg):
+    """g.v against the error-estimated derivative of t -> logd(x + t*sigma*v) of the same object, for eigen-directions
+    (sigma = that direction's standard deviation) and random directions; a direction the log-density ignores must have
+    a gradient component that vanishes on the scale of the whole gradient."""
+    g = np.asarray(g, dtype=float).reshape(-1)
+    if g.size != x.size or not np.all(np.isfinite(g)):
+        return
+    gnorm = float(np.linalg.norm(g))
+    for v, sig, lab in dirs:
+        f = lambda t: FD._scalar(obj.logd(x + float(t[0]) * sig * v))
+        try:
+            R, err, _ = FD.richardson_gradient(f, np.zeros(1))
+        except Exception:  # noqa
+            ctx.count("unjudged"); continue
+        ref, e = R[0] / sig, err[0] / sig
+        if not np.isfinite(ref) or e > max(POOR_REF, allow) * max(gnorm, abs(ref)):
+            ctx.count("unjudged:directional reference not accurate enough"); continue
+        gv = float(g @ v)
+        tol = ERR_FACTOR * e + RTOL_COMP * abs(ref) + (RTOL_VEC + allow) * gnorm
+        ctx.count("directional_derivatives_compared")
+        ctx.count("illcond_compared")
+        if abs(gv - ref) > 0.01 * tol:
+            ctx.count("low_headroom_directional")
+        if not abs(gv - ref) <= tol:
+            ctx.violation("gradient_mismatch", {**cfg, "cls": type(obj).__name__, "mode": "analytic", "nested": False, "direction": lab.rstrip("0123456789")},
+                          detail=f"{type(obj).__name__}.gradient: component along {lab} direction (std {sig:.3g}) is {gv!r}, the derivative of the "
+                                 f"object's own logd along it is {ref!r} (+-{e:.2g}, tol {tol:.2g}); |gradient|={gnorm:.3g}")
+
+
+def _run_illcond(case, ctx, mon, rs):
+    """Large (dim just above cuqi.config.MIN_DIM_SPARSE, or the threshold lowered at run time) and ill-conditioned
+    Gaussians in all four parameterisations: as prior, as noise model of a Likelihood/Posterior over a LinearModel,
+    and as prior inside a Posterior."""
+    import cuqi
+    D = cuqi.distribution
+    cfg = _cfg(case)
+    pr = Probe(ctx, mon, cfg)
+    old_threshold = cuqi.config.MIN_DIM_SPARSE
+    try:
+        if case["dimmode"] == "lowered":
+            cuqi.config.MIN_DIM_SPARSE = int(rs.choice([3, 5]))
+            n = int(rs.choice([8, 10, 14]))
+        elif case["dimmode"] == "below":
+            n = int(rs.choice([8, 10, 14]))              # dense small-dimension branch with the same spectra
+        else:
+            n = int(rs.choice([76, 80, 90, 100, 120]))
+        s, cond = _illcond_spectrum(case, rs, n)
+        Qm, _ = np.linalg.qr(rs.standard_normal((n, n)))
+        perm = rs.permutation(n)
+        full = case["form"] in ("full", "sparse_full")
+        if not full:                                        # axis-aligned: eigenvectors are unit vectors
+            Qm = np.eye(n)[:, np.argsort(perm)]
+        param = case["param"]
+        allow = float(min(1e4 * FD.EPS * cond, 5e-2))
+        mon.cond_allow = allow
+        val = _illcond_value(param, case["form"], Qm, s, perm)
+        draw = lambda: (Qm * np.sqrt(s)) @ rs.standard_normal(n)       # a draw of the Gaussian itself (zero mean)
+        role = case["role"]
+        before = pr.compared
+        if role in ("prior", "post_prior"):
+            mean = rs.standard_normal(n)
+            k, X = core.outcome(D.Gaussian, mean, **{param: val}, name="x")
+            if k != "value":
+                ctx.refused("ctor", X); ctx.count("build_refused"); return
+            if case["form"] == "sparse_full":
+                k2, Xd = core.outcome(D.Gaussian, mean, **{param: val.toarray()}, name="x")
+                if k2 == "value":
+                    mon.fallback[id(X)] = Xd.logd
+            pts = [mean + draw(), mean + 0.3 * rs.standard_normal(n)]
+            if role == "prior":
+                must_refuse = param == "sqrtprec"
+                js = sorted(set([0, n // 4, n // 2, (3 * n) // 4, n - 3, n - 2, n - 1]))
+                dirs = [(Qm[:, j], float(np.sqrt(s[j])), f"eigen{j}") for j in js]
+                for v in rs.standard_normal((3, n)):
+                    v = v / np.linalg.norm(v)
+                    dirs.append((v, float(1.0 / np.sqrt(np.sum((Qm.T @ v) ** 2 / s))), "random"))
+                for x in pts:
+                    kind, g, top = pr.call(X, x, must_refuse=must_refuse)
+                    if kind == "value" and g is not None and case["form"] != "sparse_full":
+                        mon.enabled = False
+                        try:
+                            _directional_check(pr, ctx, X, x, g, dirs, allow, pr.cfg)
+                        finally:
+                            mon.enabled = True
+                _fd_cycle(pr, X, pts[0], rs, n_eps=1)
+            else:
+                mo = int(rs.choice([2, 3, 5]))
+                A = cuqi.model.LinearModel(rs.standard_normal((mo, n)) / np.sqrt(n))
+                y = D.Gaussian(A, float(rs.uniform(0.05, 0.5)), name="y")
+                L = y(y=A @ pts[0] + 0.1 * rs.standard_normal(mo))
+                k, P = core.outcome(D.Posterior, L, X)
+                if k != "value":
+                    ctx.refused("build", P); ctx.count("build_refused"); return
+                for x in pts:
+                    pr.call(P, x, must_refuse=param == "sqrtprec", chain=True)
+                _fd_cycle(pr, P, pts[0], rs, chain=True, n_eps=1)
+        else:
+            mz = int(rs.choice([2, 3, 5]))
+            Amat = rs.standard_normal((n, mz)) / np.sqrt(mz)
+            A = cuqi.model.LinearModel(Amat)
+            k, y = core.outcome(D.Gaussian, A, **{param: val}, name="y")
+            if k != "value":
+                ctx.refused("ctor", y); ctx.count("build_refused"); return
+            z_true = rs.standard_normal(mz)
+            data = Amat @ z_true + draw()
+            L = y(y=data)
+            if case["form"] == "sparse_full":
+                k2, yd = core.outcome(D.Gaussian, A, **{param: val.toarray()}, name="y")
+                if k2 == "value":
+                    mon.fallback[id(L)] = yd(y=data).logd
+            target = L if role == "lik" else D.Posterior(L, D.Gaussian(np.zeros(mz), float(rs.uniform(0.5, 2)), name="x"))
+            must_refuse = param == "sqrtprec"
+            for q in (z_true + 1e-3 * rs.standard_normal(mz), z_true + 0.3 * rs.standard_normal(mz)):
+                pr.call(target, q, must_refuse=must_refuse, chain=True)
+            _fd_cycle(pr, target, z_true + 1e-3 * rs.standard_normal(mz), rs, chain=True, n_eps=1)
+        ctx.count("illcond_compared", pr.compared - before)
+        ctx.count("illcond_cases_run")
+    finally:
+        cuqi.config.MIN_DIM_SPARSE = old_threshold
+        mon.cond_allow = 0.0
+
+
+SHAPE_RETURNS = ("2d", "1d", "list2d", "list1d")
+
+
+def _run_shape(case, ctx, mon, rs):
+    """Degenerate shapes: one parameter / many outputs and many parameters / one output, with the Jacobian (or the
+    direction-Jacobian product) handed back as 2-D array, flattened 1-D array or (nested) python lists. The gradient of
+    the Likelihood / Posterior must have as many entries as there are parameters and equal d logd/dx, or be refused."""
+    import cuqi
+    D = cuqi.distribution
+    cfg = _cfg(case); cfg.update(shape=case["shape"], ret=case["ret"])
+    pr = Probe(ctx, mon, cfg)
+    n, m = {"1xm": (1, int(rs.choice([2, 3, 4, 6]))), "nx1": (int(rs.choice([2, 3, 4, 6])), 1), "1x1": (1, 1)}[case["shape"]]
+    a = rs.standard_normal((m, n)); b = rs.standard_normal((m, n)) * 0.5
+    flat = lambda x: np.atleast_1d(np.asarray(x, dtype=float)).reshape(-1)
+    F = lambda x: a @ np.sin(flat(x)) + b @ (flat(x) ** 2)
+    J = lambda x: a * np.cos(flat(x))[None, :] + 2 * b * flat(x)[None, :]
+    ret = case["ret"]
+    def shaped(M2):                                   # M2 is the 2-D (m, n) Jacobian
+        if ret == "2d": return M2
+        if ret == "1d": return M2.reshape(-1)
+        if ret == "list2d": return M2.tolist()
+        return M2.reshape(-1).tolist()
+    if case["model"] == "jac":
+        model = cuqi.model.Model(lambda x: F(x), m, n, jacobian=lambda x: shaped(J(x)))
+    else:
+        def vjp(direction, wrt):
+            v = J(wrt).T @ flat(direction)            # (n,)
+            if ret == "2d": return v
+            if ret == "1d": return float(v[0]) if n == 1 else v
+            if ret == "list2d": return v.tolist()
+            return v.tolist() if n > 1 else [float(v[0])]
+        model = cuqi.model.Model(lambda x: F(x), m, n, gradient=vjp)
+    df = case["data"]
+    def build():
+        if df.startswith("lognormal"):
+            y = D.Lognormal(model, 0.3 * _form_value(df.split(":")[1], rs, m), name="y")
+            is_ln = True
+        else:
+            param, f = df.split(":")
+            y = D.Gaussian(model, **{param: _form_value(f, rs, m, sqrt=param.startswith("sqrt"))}, name="y")
+            is_ln = False
+        x_true = rs.standard_normal(n)
+        clean = F(x_true) + 0.2 * rs.standard_normal(m)
+        data = np.exp(clean) if is_ln else clean
+        if m == 1 and case.get("scalar_data"):
+            data = float(data[0])
+        L = y(y=data)
+        prior = _prior(case["prior"], n, "default", rs)[0]
+        return L, D.Posterior(L, prior), x_true
+    k, res = core.outcome(build)
+    if k != "value":
+        ctx.refused("build", res); ctx.count("build_refused"); return
+    L, P, x_true = res
+    before = pr.compared
+    xs = [x_true + 0.3 * rs.standard_normal(n), rs.standard_normal(n)]
+    for x in xs:
+        pr.call(L, x, chain=True)
+        pr.call(P, x, chain=True)
+    if n == 1:
+        pr.call(L, float(xs[0][0]), chain=True, extra={"point": "float"})
+        pr.call(P, float(xs[0][0]), chain=True, extra={"point": "float"})
+    pr.call(L.distribution, L.data, xs[0], chain=True, extra={"call": "conditional"})
+    _fd_cycle(pr, P, xs[1], rs, chain=True, n_eps=1)
+    pr.call(P, xs[1], chain=True, extra={"point": "after_fd_off"})
+    ctx.count("degenerate_shape_compared", pr.compared - before)
+
+
 def _run_mlp(case, ctx, mon, rs):
     import cuqi
     D = cuqi.distribution
@@ -1456,7 +1706,7 @@ def _run_testproblem(case, ctx, mon, rs):
     _fd_cycle(pr, P, np.abs(rs.standard_normal(n)) + 0.3, rs, chain=True, n_eps=1)
 
 
-_RUN = {"scaled": _run_scaled, "dist": _run_dist, "lik": _run_lik, "post": _run_post, "mlp": _run_mlp, "pde": _run_pde,
+_RUN = {"illcond": _run_illcond, "shape": _run_shape, "scaled": _run_scaled, "dist": _run_dist, "lik": _run_lik, "post": _run_post, "mlp": _run_mlp, "pde": _run_pde,
         "sampler": _run_sampler, "testproblem": _run_testproblem}
 
 
